@@ -105,6 +105,11 @@ def cases(seed, tier, broken=()):
         out.append({"cls": cls, "ops": ["fitW", "serialize", "scores", "components"]})
     for cls in ("MCA+pcaall", "POP+pcaall"):
         out.append({"cls": cls, "ops": ["fit2", "fit0", "scores", "components", "metrics"]})
+    # the object under test is a ROTATOR: fitted on model A, queried through every public accessor, fitted on model B — every answer
+    # must then be that of a fresh rotator fitted on model B
+    for i, rn in enumerate(["EOFRotator", "MCARotator", "CPCCARotator", "ComplexEOFRotator", "ComplexMCARotator", "HilbertEOFRotator", "HilbertMCARotator", "ComplexCPCCARotator"]):
+        for power in ((1, 2) if tier != "quick" else ((1,) if i % 2 else (2,))):
+            out.append({"cls": "rot:" + rn, "ops": ["rotfitA", "queries", "rotfitB", "queries"], "power": power})
     nrand = {"quick": 36, "thorough": 600, "search": 300}[tier]
     for i in range(nrand):
         cls = CLASSES[i % len(CLASSES)]
@@ -205,7 +210,87 @@ def meta(model):
     return out
 
 
+def accessor_answers(obj):
+    """every public zero-argument accessor -> flat dict of labelled arrays (what it refuses is recorded as the exception class)"""
+    import inspect
+
+    out = {}
+    for name in sorted(dir(obj)):
+        if name.startswith("_") or name in _NOT_QUERIES:
+            continue
+        f = getattr(obj, name, None)
+        if not callable(f) or inspect.isclass(f):
+            continue
+        try:
+            sig = inspect.signature(f)
+        except (TypeError, ValueError):
+            continue
+        if any(p.default is inspect.Parameter.empty and p.kind in (p.POSITIONAL_ONLY, p.POSITIONAL_OR_KEYWORD, p.KEYWORD_ONLY) for p in sig.parameters.values()):
+            continue
+        try:
+            r = f()
+        except Exception as e:  # noqa: BLE001
+            out[name] = type(e).__name__
+            continue
+        items = r if isinstance(r, (list, tuple)) else [r]
+        for j, it in enumerate(items):
+            if isinstance(it, (list, tuple)):
+                for jj, it2 in enumerate(it):
+                    if isinstance(it2, xr.DataArray):
+                        out[f"{name}[{j}][{jj}]"] = it2
+            elif isinstance(it, xr.DataArray):
+                out[f"{name}[{j}]"] = it
+    return out
+
+
+def run_rot(case):
+    F = []
+    rn = case["cls"].split(":")[1]
+    base = zoo.base_of(rn)
+    cfg = zoo.default_cfg(base, n_modes=4, solver="full", random_state=1)
+    if "Hilbert" in rn:
+        cfg["padding"] = "none"
+    mod = xe.single if rn in zoo.SINGLE_ROT else xe.cross
+
+    def fitted(which):
+        m = zoo.construct(base, cfg)
+        zoo.fit(base, datasets(base, which), "time", cfg, model=m)
+        return m
+
+    try:
+        mA, mB = fitted(0), fitted(2)
+        r = getattr(mod, rn)(n_modes=3, power=case["power"])
+        r.fit(mA)
+        accessor_answers(r)
+        r.fit(mB)
+        fresh = getattr(mod, rn)(n_modes=3, power=case["power"])
+        fresh.fit(fitted(2))
+    except RuntimeError as e:
+        if "did not converge" in str(e):
+            return {"findings": [], "info": {"dist": {"cls": rn, "outcome": "not-converged"}}}
+        raise
+    a, b = accessor_answers(r), accessor_answers(fresh)
+    n = 0
+    for k in b:
+        n += 1
+        if k not in a:
+            F.append(Finding("oracle", "last_fit_determines", f"{rn}|rotator-refit", f"{k}: missing from the re-fitted rotator"))
+            break
+        if isinstance(b[k], str) or isinstance(a[k], str):
+            if a[k] != b[k] and not (isinstance(a[k], str) and isinstance(b[k], str)):
+                F.append(Finding("oracle", "last_fit_determines", f"{rn}|rotator-refit", f"{k}: {a[k] if isinstance(a[k], str) else 'answer'} vs fresh {b[k] if isinstance(b[k], str) else 'answer'}"))
+                break
+            continue
+        rr = compare_answers({k: b[k]}, {k: a[k]})
+        if rr:
+            F.append(Finding("oracle", "last_fit_determines", f"{rn}|rotator-refit", f"a rotator fitted on model A, queried, then fitted on model B answers differently from a fresh rotator fitted on B: {rr[:200]}"))
+            break
+    return {"findings": F, "info": {"steps": 4, "oracle_checks": {"accessors": n}, "dist": {"cls": rn, "len": 4}}}
+
+
 def run(case):
+    if case["cls"].startswith("rot:"):
+        return run_rot(case)
     F = []
     cls0 = case["cls"]
     cls = cls0.split("+")[0]
